@@ -65,7 +65,7 @@ func (r *recorder) loopVerdict(il *indexLoop, rule, construct string, pos token.
 
 var ctlName = regexp.MustCompile(`verifControl([A-Za-z]+?)([0-9]*)(Bad|Good)`)
 
-var ruleNames = map[string]string{"PRUNE": "PRUNE-1", "CHILD": "CHILD-1", "IDENT": "IDENT-1", "KEY": "KEY-1", "ORD": "ORD-3", "BND": "BND-1", "CONS": "CONS-1", "BVH": "BVH-2", "SPLIT": "BVH-1"}
+var ruleNames = map[string]string{"PRUNE": "PRUNE-1", "CHILD": "CHILD-1", "IDENT": "IDENT-1", "KEY": "KEY-1", "ORD": "ORD-3", "BND": "BND-1", "CONS": "CONS-1", "BVH": "BVH-2", "SPLIT": "BVH-1", "BOXRAY": "BOX-RAY"}
 
 // finishControl turns what was collected for a control function into a Control record.
 func (r *recorder) finishControl(name string) {
